@@ -23,6 +23,21 @@ PROPS = {
     },
 }
 
+PROPS["C07"] = {
+    "level": "proof",
+    "technique": "Lean 4 theorems about the bit-level reference codec (round trip, canonicity, fits-iff, rejected shapes) + byte-level model of encoding.rs tied to code and reference by differential execution (exhaustive on short strings)",
+    "rule": "ops = every byte string of length <= 2 for n = 1..3 (complete; length 3 for n = 2 in the thorough tier), token-built strings (valid encodings with exact-fit/slack 0..17 bits, negative zero, boundary unary runs 93..512 at any/last position, dirty padding, bit flips, truncation/extension, wrong n), production-size buffers (625/1239 bytes) steered to end at the buffer end, compress on vectors x budgets around the fit edge; distinct by op line; non-trivial when the property's predicate applies (n >= 1; entries below 12160) and was evaluated against the harness's independent bit-list Algorithm 17/18 and by re-compressing / re-decompressing on the real code",
+    "exhaustive": {"quick": (False, "all strings of length <= 2 for n <= 3 enumerated; longer strings generated"),
+                    "thorough": (False, "all strings of length <= 2 (n <= 3) and of length 3 (n = 2) enumerated; longer strings generated")},
+    "level_text": "Machine-checked theorems about the specification-level codec (Algorithms 17/18 + cap 95, the constants re-extracted from encoding.rs): compress fails iff empty or does not fit; whatever it returns decompresses to the input (entries below 12160); every accepted string is exactly the compression of the returned vector (canonicity, injectivity); negative zero, dirty padding, runs >= 95, truncation rejected. The byte-level model of encoding.rs and the real code are tied to that specification by three-way differential execution, complete on all short strings.",
+    "level_note": "Trusted: Lean kernel; the byte-level model <-> bit-level specification refinement is checked by execution (exhaustive on short strings), not yet by a theorem for all lengths; harness reference codec; translator (caps 95/95, guards 9/8).",
+    "trusted_base": TB_COMMON,
+    "assumptions": ["refinement between the byte-twiddling implementation and the bit-list specification holds beyond the enumerated/generated inputs (it is validated on every run, not proved for all lengths)"],
+    "not_proved": ["Codec.decompress/compress (byte-level) = Spec.decompressRef/compressRef for all inputs: validated by execution only"],
+    "release_too": True,
+    "release_filter": r"^(de)?compress ",
+}
+
 # properties not (yet) claimed, with the reason shown in MANIFEST.not_applicable
 NOT_YET = {k: "check not built yet in this session (planned in DESIGN.md §7/§8); not claimed until its check passes" for k in
-           ["C01", "C02", "C03", "C04", "C05", "C06", "C07", "C08", "C09", "C10", "C11", "C13", "C14", "C15", "C16", "C17"]}
+           ["C01", "C02", "C03", "C04", "C05", "C06", "C08", "C09", "C10", "C11", "C13", "C14", "C15", "C16", "C17"]}
